@@ -135,8 +135,10 @@ let exec (toks : string list) : string list =
          if t < L.length src.(j) then (pending_lo := min !pending_lo t; src.(j) <- take t src.(j))
        | _ -> ver.(j) <- int_of_string arg)
     | 'C' ->
-      let (mf, cap) = match S.split_on_char ':' rest with
-        | [a; b] -> (Z.of_string a, int_of_string b) | _ -> failwith "C" in
+      let (mf, cap, fail) = match S.split_on_char ':' rest with
+        | [a; b] -> (Z.of_string a, int_of_string b, None)
+        | [a; b; c] -> (Z.of_string a, int_of_string b, Some (nat_of_int (int_of_string c)))
+        | _ -> failwith "C" in
       let s = srcs () in
       let nused = if mname = "sum_of_others" || mname = "min_of_others" || mname = "max_of_others"
         then max 1 (min 3 (Z.to_int w)) else n64 in
@@ -161,17 +163,19 @@ let exec (toks : string list) : string list =
       let mfi = if is_fpi then (if Z.gt mf (Z.of_int (tgt + len0 + 1)) then tgt + len0 + 1 else Z.to_int mf) else mfi in
       let (v', r) =
         if is_fpi then fpi_call compressed (L.nth (fst s) 0) (n_of_int !dep) (nat_of_int mfi) (nat_of_int capn) !v
-        else call_by_id id compressed s (n_of_int !dep) (nat_of_int mfi) (nat_of_int capn) !v in
+        else call_by_id_fail id fail compressed s (n_of_int !dep) (nat_of_int mfi) (nat_of_int capn) !v in
       v := v';
       let hang = (match r with Err OutOfFuel -> is_fpi | _ -> false) in
       let res = match r with Ok _ -> "ok" | Err e -> "err:" ^ err_name e | Panic -> "panic" in
       let vals = vec_contents v' in
       let len1 = L.length vals in
-      let ev = if logs && len1 > from then Printf.sprintf "%d-%d" from len1 else "-" in
+      (* a failing closure is still called (and logged) at the index at which it fails *)
+      let ev_end = if fail <> None && res <> "ok" then len1 + 1 else len1 in
+      let ev = if logs && ev_end > from then Printf.sprintf "%d-%d" from ev_end else "-" in
       let bs =
-        if has_this && len1 > from then begin
+        if has_this && ev_end > from then begin
           let step = if cap = 0 then max_int else cap in
-          let rec go i acc = if i >= len1 then L.rev acc else go (if step = max_int then len1 else i + step) (string_of_int i :: acc) in
+          let rec go i acc = if i >= ev_end then L.rev acc else go (if step = max_int then ev_end else i + step) (string_of_int i :: acc) in
           S.concat "," (go from [])
         end else "-" in
       if hang then begin
@@ -207,6 +211,12 @@ let exec (toks : string list) : string list =
             emit (Printf.sprintf "S C06:c06-%s-%s-from-scratch (model)" mname (if L.length sc <> len1 then "len-differs" else "differs")) end
         | _ -> tainted := true; emit (Printf.sprintf "S C06:c06-%s-outcome-differs-from-scratch (model)" mname)
       end
+    | 'h' ->
+      (* hp:<k> — k marker values pushed by hand, no write *)
+      let k = int_of_string (S.sub rest 2 (S.length rest - 2)) in
+      let len0 = int_of_nat (vlen !v) in
+      v := vec_hand_push !v (L.init k (fun j -> n_of_int (777000 + len0 + j)));
+      stale_lo := min !stale_lo len0
     | 'W' -> v := vec_write !v; emit "w ok"
     | 'R' | 'N' ->
       let new_own = if k = 'N' then int_of_string rest else !own in
